@@ -497,7 +497,7 @@ func c09FromDiffOps(r *rand.Rand) Case {
 	var mods []diff.Modification
 	var ops []string
 	if pn := guard(func() {
-		mods = c09InnerMods(*diff.Diff(anyToContainer(l), anyToContainer(rr)))
+		mods = *diff.Diff(anyToContainer(l), anyToContainer(rr)) // (every modification: the model's reader leaves separators at either end out as well)
 		if len(mods) > 20 {
 			mods = mods[:20]
 		}
